@@ -28,7 +28,19 @@ using verif::vrng;
 namespace {
 
 constexpr int POOL = 3;
-using db_t = unodb::olc_db<std::uint64_t, unodb::value_view>;
+template <class Key>
+using db_for = unodb::olc_db<Key, unodb::value_view>;
+
+// keys in programs are 8 bytes (binary comparable); as byte strings they are a
+// fixed-length, hence prefix-free, set whose compressed paths never exceed 7
+template <class Key>
+Key mk_key(const std::string& b) {
+  if constexpr (std::is_same_v<Key, std::uint64_t>) {
+    return be_to_u64(b);
+  } else {
+    return unodb::key_view{reinterpret_cast<const std::byte*>(b.data()), b.size()};
+  }
+}
 
 // ---- allocation tracking -------------------------------------------------------
 struct tracker {
@@ -176,7 +188,8 @@ struct olc_harness final : harness {
     if (r.chance(1, 12)) init.clear();  // empty tree: root creation / removal races
     std::vector<std::string> U(uni.begin(), uni.end());
     std::string p = "threads " + std::to_string(T) + "\n";
-    p += std::string("qmode ") + (r.chance(1, 2) ? "every" : "end") + "\ninit";
+    p += std::string("qmode ") + (r.chance(1, 2) ? "every" : "end") + "\n";
+    p += std::string("keys ") + (r.chance(1, 3) ? "kv" : "u64") + "\ninit";
     for (auto& k : init) p += " " + to_hex(k);
     p += "\n";
     std::uint32_t vseed = 1 + static_cast<std::uint32_t>(r.below(1000)) * 16;
@@ -212,6 +225,7 @@ struct olc_harness final : harness {
       }
     }
     if (st) {
+      st->inc(p.find("\nkeys kv") != std::string::npos ? "keykind_byte_string_programs" : "keykind_uint64_programs");
       st->inc("programs_threads_" + std::to_string(T));
       st->inc("programs_focus_fanout_" + std::to_string(fan));
       if (scanners) st->inc("programs_with_scanner");
@@ -251,6 +265,13 @@ struct olc_harness final : harness {
   }
 
   exec_result execute(const std::string& program, strategy& strat, verif::stats* st) override {
+    if (program.find("\nkeys kv") != std::string::npos) return execute_t<unodb::key_view>(program, strat, st);
+    return execute_t<std::uint64_t>(program, strat, st);
+  }
+
+  template <class Key>
+  exec_result execute_t(const std::string& program, strategy& strat, verif::stats* st) {
+    using db_t = db_for<Key>;
     auto& S = scheduler::get();
     unsigned T = 2;
     bool q_every = true;
@@ -300,7 +321,7 @@ struct olc_harness final : harness {
     kvmap initial;
     for (auto& k : init) {
       const std::string v = value_of(init_vseed(k));
-      if (db->insert(be_to_u64(k), unodb::value_view{reinterpret_cast<const std::byte*>(v.data()), v.size()})) initial[k] = v;
+      if (db->insert(mk_key<Key>(k), unodb::value_view{reinterpret_cast<const std::byte*>(v.data()), v.size()})) initial[k] = v;
     }
 #ifdef UNODB_DETAIL_WITH_STATS
     const auto grow0 = db->get_growing_inode_counts();
@@ -341,7 +362,7 @@ struct olc_harness final : harness {
             case O_GET: {
               o.call = S.stamp();
               {
-                const auto r = db->get(be_to_u64(o.key));
+                const auto r = db->get(mk_key<Key>(o.key));
                 o.res = r.has_value();
                 if (o.res) {
                   const std::byte* p = r->begin().get();
@@ -356,14 +377,14 @@ struct olc_harness final : harness {
             case O_INS: {
               const std::string v = value_of(o.vseed);
               o.call = S.stamp();
-              o.res = db->insert(be_to_u64(o.key), unodb::value_view{reinterpret_cast<const std::byte*>(v.data()), v.size()});
+              o.res = db->insert(mk_key<Key>(o.key), unodb::value_view{reinterpret_cast<const std::byte*>(v.data()), v.size()});
               o.ret = S.stamp();
               o.executed = true;
               break;
             }
             case O_REM:
               o.call = S.stamp();
-              o.res = db->remove(be_to_u64(o.key));
+              o.res = db->remove(mk_key<Key>(o.key));
               o.ret = S.stamp();
               o.executed = true;
               break;
@@ -394,8 +415,8 @@ struct olc_harness final : harness {
               };
               o.call = S.stamp();
               if (o.k == O_SCAN) db->scan(fn, o.fwd);
-              else if (o.k == O_SCANFROM) db->scan_from(be_to_u64(o.key), fn, o.fwd);
-              else db->scan_range(be_to_u64(o.key), be_to_u64(o.key2), fn);
+              else if (o.k == O_SCANFROM) db->scan_from(mk_key<Key>(o.key), fn, o.fwd);
+              else db->scan_range(mk_key<Key>(o.key), mk_key<Key>(o.key2), fn);
               o.ret = S.stamp();
               o.executed = true;
               if (after_halt && v09.empty()) v09 = "the visitor was called again after it returned true";
@@ -442,7 +463,7 @@ struct olc_harness final : harness {
         g.key = k;
         g.call = after + 1;
         g.ret = after + 2;
-        const auto r = db->get(be_to_u64(k));
+        const auto r = db->get(mk_key<Key>(k));
         g.res = r.has_value();
         if (g.res) {
           g.val.assign(reinterpret_cast<const char*>(r->begin().get()), r->size());
@@ -622,11 +643,11 @@ struct olc_harness final : harness {
     {
       // insert+remove probe next to every key
       for (auto& k : all_keys) {
-        const std::uint64_t probe = be_to_u64(k) ^ 1ULL;
-        if (all_keys.count(u64_to_be(probe))) continue;
+        const std::string probe = u64_to_be(be_to_u64(k) ^ 1ULL);
+        if (all_keys.count(probe)) continue;
         const char one = 1;
-        const bool a = db->insert(probe, unodb::value_view{reinterpret_cast<const std::byte*>(&one), 1});
-        const bool b = db->remove(probe);
+        const bool a = db->insert(mk_key<Key>(probe), unodb::value_view{reinterpret_cast<const std::byte*>(&one), 1});
+        const bool b = db->remove(mk_key<Key>(probe));
         if ((!a || !b) && v03.empty()) v03 = "after the execution an insert+remove probe next to a key failed";
       }
       unodb::this_thread().quiescent();
